@@ -127,7 +127,10 @@ carquet_status_t carquet_snappy_decompress(
         } else if (type == SNAPPY_COPY_1) {
             /* Copy with 1-byte offset */
             size_t len = ((tag >> 2) & 0x07) + 4;
-            size_t offset = ((tag >> 5) << 8) | *ip++;
+            if (ip >= iend) {
+                return CARQUET_ERROR_INVALID_COMPRESSED_DATA;
+            }
+            size_t offset = ((size_t)(tag >> 5) << 8) | *ip++;
 
             if (offset == 0 || offset > (size_t)(op - dst)) {
                 return CARQUET_ERROR_INVALID_COMPRESSED_DATA;
